@@ -1,9 +1,11 @@
 use crate::ctx::Ctx;
 pub mod chunker;
+pub mod hashes;
 
 pub fn run(suite: &str, ctx: &mut Ctx) -> bool {
     match suite {
         "chunker" => chunker::run(ctx),
+        "hashes" => hashes::run(ctx),
         _ => return false,
     }
     true
